@@ -47,6 +47,7 @@ Section Machine.
   (* ---- what a body implementation must provide ---- *)
   Record iface (B : Type) := {
     i_init : list (K * V) -> option B;
+    i_from : B -> option B;                   (* CaseInsensitiveDict(other_header_map) *)
     i_combine : B -> B -> option B;
     i_combine_lower : B -> list (K * V) -> option B;
     i_set : B -> K -> V -> option B;
@@ -95,17 +96,6 @@ Section Machine.
     Definition rebind (s : store) (v i : nat) : store :=
       {| bodies := bodies s; env := (v, i) :: env s |}.
 
-    (* {**w}: keys by iteration, values by __getitem__ *)
-    Fixpoint items_via_getitem (b : B) (ks : list K) : option (list (K * V)) :=
-      match ks with
-      | [] => Some []
-      | k :: r =>
-          match i_get I b k, items_via_getitem b r with
-          | Some v, Some l => Some ((k, v) :: l)
-          | _, _ => None
-          end
-      end.
-
     Definition new_from (s : store) (v : nat) (ob : option B) : store * obs :=
       match ob with
       | Some b => (alloc s v b, ObDone)
@@ -123,11 +113,7 @@ Section Machine.
       | ONew v items => new_from s v (i_init I items)
       | ONewFrom v w =>
           match body_of s w with
-          | Some (_, b) =>
-              match items_via_getitem b (i_iter I b) with
-              | Some items => new_from s v (i_init I items)
-              | None => (s, ObKeyError)
-              end
+          | Some (_, b) => new_from s v (i_from I b)
           | None => (s, ObUnbound)
           end
       | OCopy v w =>
@@ -286,6 +272,17 @@ Section Body.
   Definition b_init (items : list (K * V)) : option body :=
     let d := dmerge keqb [] items in mk d (build_cmap d).
 
+  (* {**w} for a header map w: keys by iteration, values by __getitem__ *)
+  Fixpoint items_via_getitem (get : K -> option V) (ks : list K) : option (list (K * V)) :=
+    match ks with
+    | [] => Some []
+    | k :: r =>
+        match get k, items_via_getitem get r with
+        | Some v, Some l => Some ((k, v) :: l)
+        | _, _ => None
+        end
+    end.
+
   Definition b_combine (a b : body) : option body :=
     mk (dmerge keqb (bdata a) (bdata b)) (dmerge keqb (bcmap a) (bcmap b)).
 
@@ -327,6 +324,12 @@ Section Body.
     end.
   Definition b_get (b : body) (k : K) : option V := b_get_lower b (lower k).
 
+  Definition b_from (b : body) : option body :=
+    match items_via_getitem (b_get b) (dkeys (bdata b)) with
+    | Some items => b_init items
+    | None => None
+    end.
+
   Definition b_len (b : body) : nat := length (bdata b).
   Definition b_iter (b : body) : list K := dkeys (bdata b).
   (* {k.lower(): v for k, v in data.items()} *)
@@ -339,7 +342,7 @@ Section Body.
     deqb keqb veqb (b_as_lower b) (lower_items (dmerge keqb [] items)).
 
   Definition body_iface : iface K V body := {|
-    i_init := b_init; i_combine := b_combine; i_combine_lower := b_combine_lower;
+    i_init := b_init; i_from := b_from; i_combine := b_combine; i_combine_lower := b_combine_lower;
     i_set := b_set; i_del := b_del; i_del_lower := b_del_lower;
     i_get := b_get; i_get_lower := b_get_lower; i_len := b_len; i_iter := b_iter;
     i_as_lower := b_as_lower; i_eq := b_eq; i_eq_plain := b_eq_plain |}.
